@@ -83,6 +83,7 @@ def _has_missing(x):
 
 
 ELEMENTWISE = [True]  # set per case: the program has no final reduction / groupby
+USER_META = [False]  # set per case: the program passes meta= itself (map/apply/transform/shift)
 
 
 def _numfam(dt):
@@ -99,6 +100,12 @@ def dtype_ok(meta_dt, got_dt, values, empty_ok):
     if D.dtype_agrees(meta_dt, got_dt):
         return True
     if empty_ok:
+        return True
+    if USER_META[0]:
+        return True  # the dtype was dictated by the program's own meta= argument, not inferred by dask
+    if isinstance(meta_dt, np.dtype) and meta_dt.kind in "biu" and len(values) and _has_missing(values):
+        # bool/int cannot hold the missing values that are really there (mode padding, NA-key rows, ...):
+        # the missingness-driven upcast dask documents as not statically inferable
         return True
     mf, gf = _numfam(meta_dt), _numfam(got_dt)
     if mf is None or gf is None or mf == gf:
@@ -216,7 +223,9 @@ def check(spec):
     ops = spec.get("ops", [])
     case = D.build_case(spec["frame"], spec.get("clear_div", False))
     envp, envd = D.Env(case, "pd"), D.Env(case, "dd")
-    sig = dict(ops="+".join(o["op"] for o in ops), final=describe_final(spec), empty_part=case.has_empty, **c36.flags(ops, case)) if ops else dict(
+    # input classes of the optimizer defects known from C36 ("..._then": the step is followed by another one)
+    ops_then = ops + ([{"op": "final"}] if spec.get("final") else [])
+    sig = dict(ops="+".join(o["op"] for o in ops), final=describe_final(spec), empty_part=case.has_empty, **c36.flags(ops_then, case)) if ops else dict(
         ops="", final=describe_final(spec), empty_part=case.has_empty
     )
     kinds = [c["kind"] for c in spec["frame"]["columns"]]
@@ -233,6 +242,7 @@ def check(spec):
         sig["gb_kind"] = a["kind"]
         sig["by"] = "index" if g["by"] == "index" else "series" if isinstance(g["by"], dict) else "cols"
     ELEMENTWISE[0] = not spec.get("final")
+    USER_META[0] = uses_user_meta(spec)
     with warnings.catch_warnings(), np.errstate(all="ignore"):
         warnings.simplefilter("ignore")
         status, want = reference(run_program, case.base, spec, envp)
@@ -259,7 +269,10 @@ def check(spec):
             ensure(_same_name(lazy.name, meta.name) and lazy.dtype == meta.dtype, ".name/.dtype differ from _meta", "meta-views-disagree", **sig)
         # user-supplied meta of the form (name, dtype) / {column: dtype} says nothing about the index
         check_index = not uses_user_meta(spec)
-        compare_meta(meta, got, "full result", sig, check_index=check_index)
+        # zero input rows: the full result is computed from no data at all, which is the empty-partition
+        # situation (pandas' dtypes over nothing are data dependent) rather than a full result
+        nothing = len(case.pdf) == 0 and hasattr(got, "__len__") and len(got) == 0
+        compare_meta(meta, got, "full result", sig, check_index=check_index, empty_ok=nothing)
         if D.kind_of(meta) == "scalar":
             return
         try:
